@@ -129,6 +129,9 @@ func visitInstr(fr *frame, instr ssa.Instruction) continuation {
 	p := fr.i.p
 	p.steps++
 	p.curInstr = instr
+	if p.profile != nil {
+		p.profile[fr.fn]++
+	}
 	if p.steps > p.stepBudget {
 		panic(pathAbort{kind: "budget", msg: "step budget exceeded (possible non-termination)", pos: fr.i.prog.Fset.Position(instr.Pos()).String(), fn: fr.fn.String()})
 	}
@@ -627,7 +630,7 @@ func initAllowed(path string) bool {
 		}
 	}
 	switch path {
-	case "io", "sort", "strconv", "unicode/utf8", "math", "math/bits", "io/fs", "context", "bytes", "strings", "container/heap", "container/list", "encoding/hex", "unicode":
+	case "io", "sort", "strconv", "unicode/utf8", "math", "math/bits", "io/fs", "context", "bytes", "strings", "container/heap", "container/list", "encoding/hex":
 		return true
 	}
 	return false
